@@ -7,6 +7,8 @@
  * --p0 maxlen : largest ordinary array length (default 4097); --p1 : one case in p1 uses a big length
  */
 #include "codecs.h"
+/* the harness's own buffers (some cases use arrays of tens of millions of elements) */
+#define malloc(n) h_alloc_check((malloc)(n), (n))
 
 static const char *PROP = "C02";
 static distinct_t g_distinct;
@@ -146,15 +148,63 @@ static void c02_blocks32(const codec_t *c, const input_t *in) {
     free(buf);
 }
 
+static void c02_check(const codec_t *c, input_t in, uint64_t g, rng_t *r);
+static bool c02_huge_case(const codec_t *c, uint64_t g, rng_t *r);
 static void c02_case(uint64_t idx, rng_t *r) {
     uint64_t g = idx * g_nshards + g_shard;
     /* the first non-adaptive codecs only */
     size_t ncod = 0;
     while (ncod < NCODECS && !codec_is_adaptive(&CODECS[ncod])) ncod++;
     const codec_t *c = &CODECS[g % ncod];
-    char key[200];
+    if (idx < g_param[3] && c02_huge_case(c, g, r)) return;
     input_t in;
     make_input(c, idx, r, &in);
+    c02_check(c, in, g, r);
+}
+/* arrays of more than 2^20 elements (the first p3 cases of every shard): any model, with a unique minimum and a
+ * unique maximum dropped at random positions so that analysis passes which look at a subset of a large input are
+ * observable */
+static bool c02_huge_case(const codec_t *c, uint64_t g, rng_t *r) {
+    static const size_t lens[] = {1048577, 1200001, 1500000, 2097153, 3000000, 1048576 + 4097, 2500000};
+    /* p4: "giant" arrays instead — past 2^24 elements and past 2^32/100, 2^32/95, 2^32/90 elements */
+    static const size_t giant[] = {16777217, 16777216 + 70000, 20000000, 33554433, 42949673, 45210183, 45300000, 47721859, 50000000};
+    if (c->maxlen && c->maxlen < (1u << 20)) return false;
+    if (c->domain == DOM_GROUP || c->domain == DOM_STRICT16) return false;
+    size_t n = g_param[4] ? giant[rng_below(r, sizeof giant / sizeof giant[0])] : lens[rng_below(r, sizeof lens / sizeof lens[0])];
+    n += rng_below(r, 5);
+    if (g_param[4]) STAT_INC("c02_giant_arrays");
+    int model = (int)rng_below(r, AM_NMODELS);
+    uint64_t *tmp = malloc(n * 8);
+    gen_array_model(r, model, tmp, n, (unsigned)c->elembits);
+    n = shape_domain(c, r, tmp, n, model);
+    uint64_t mn = tmp[0], mx = tmp[0];
+    for (size_t i = 1; i < n; i++) { if (tmp[i] < mn) mn = tmp[i]; if (tmp[i] > mx) mx = tmp[i]; }
+    if (c->domain != DOM_SORTED && c->domain != DOM_SIGNED_DELTA) {
+        uint64_t top = c->elembits == 32 ? 0xffffffffULL : UINT64_MAX;
+        if (mn < 2) { /* make room below the minimum */
+            for (size_t i = 0; i < n; i++) if (tmp[i] < 2) tmp[i] += 2;
+            mn = 2;
+            if (mx < 3) mx = 3;
+        }
+        size_t p1 = rng_below(r, n);
+        size_t p2 = rng_below(r, n);
+        uint64_t lowv = mn >= 2 ? mn - 1 - rng_below(r, mn < 1000 ? mn - 1 : 1000) : mn;
+        uint64_t highv = mx <= top - 2 ? mx + 1 + rng_below(r, top - mx < 1000 ? top - mx - 1 : 1000) : mx;
+        tmp[p1] = lowv;
+        if (p2 != p1) tmp[p2] = highv;
+        n = shape_domain(c, r, tmp, n, model);
+    }
+    input_t in;
+    input_alloc(&in, n, g);
+    memcpy(in.a, tmp, n * 8);
+    free(tmp);
+    in.model = model;
+    STAT_INC("c02_huge_arrays");
+    c02_check(c, in, g, r);
+    return true;
+}
+static void c02_check(const codec_t *c, input_t in, uint64_t g, rng_t *r) {
+    char key[200];
     size_t n = in.n;
     g_codec_cases[c - CODECS]++;
     if (distinct_add(&g_distinct, arr_sig(c, in.a, n)) && nontrivial(in.a, n)) STAT_INC("distinct_nontrivial");
@@ -270,10 +320,13 @@ out:
 
 /* =================================================================== C03 */
 /* worst-case inputs per bound */
+static int g_worst_shape = -1; /* force a shape of c03_worst */
 static void c03_worst(const codec_t *c, rng_t *r, uint64_t *a, size_t n) {
     unsigned bits = (unsigned)c->elembits;
     uint64_t top = bits == 64 ? UINT64_MAX : 0xffffffffULL;
-    switch (rng_below(r, 6)) {
+    uint64_t shape = rng_below(r, 6);
+    if (g_worst_shape >= 0) shape = (uint64_t)g_worst_shape;
+    switch (shape) {
     case 0: /* all values maximal width, unique */
         for (size_t i = 0; i < n; i++) a[i] = (rng_next(r) | (1ULL << (bits - 1))) & top;
         break;
@@ -296,11 +349,40 @@ static void c03_worst(const codec_t *c, rng_t *r, uint64_t *a, size_t n) {
         break;
     }
 }
+static void c03_check(const codec_t *c, input_t in, uint64_t g);
+/* p3: the first cases of every shard are giant arrays (past 2^24 elements and past 2^32/100..2^32/90 elements) in the
+ * worst-case shapes of the bounds */
+static bool c03_giant_case(const codec_t *c, uint64_t g, rng_t *r) {
+    static const size_t giant[] = {16777217, 16777216 + 70000, 20000000, 33554433, 42949673, 45210183, 45300000, 47721859, 50000000};
+    if (c->maxlen && c->maxlen < (1u << 20)) return false;
+    if (c->domain == DOM_GROUP || c->domain == DOM_STRICT16) return false;
+    size_t n = giant[rng_below(r, sizeof giant / sizeof giant[0])] + rng_below(r, 5);
+    bool pfor = strstr(c->name, "pfor") || strstr(c->name, "PFOR");
+    if (pfor) { /* just past 2^32 / percentile elements, nearly every value 8 bytes wide */
+        uint64_t pct = !strcmp(c->name, "pfor.90") ? 90 : !strcmp(c->name, "pfor.99") ? 99 : 95;
+        n = (size_t)((1ull << 32) / pct) + 1 + rng_below(r, 200000);
+    }
+    input_t in;
+    input_alloc(&in, n, g);
+    if (pfor || rng_chance(r, 2, 3)) {
+        if (pfor) g_worst_shape = rng_chance(r, 1, 2) ? 0 : 5;
+        c03_worst(c, r, in.a, n);
+        g_worst_shape = -1;
+        in.model = AM_NMODELS;
+    } else {
+        in.model = (int)rng_below(r, AM_NMODELS);
+        gen_array_model(r, in.model, in.a, n, (unsigned)c->elembits);
+    }
+    in.n = shape_domain(c, r, in.a, n, AM_FULL64);
+    STAT_INC("c03_giant_arrays");
+    c03_check(c, in, g);
+    return true;
+}
 static void c03_case(uint64_t idx, rng_t *r) {
     uint64_t g = idx * g_nshards + g_shard;
     const codec_t *c = &CODECS[g % NCODECS];
-    char key[200];
     input_t in;
+    if (idx < g_param[3] && c03_giant_case(c, g, r)) return;
     make_input(c, idx, r, &in);
     if (rng_chance(r, 1, 3)) {
         size_t n = in.n;
@@ -328,12 +410,16 @@ static void c03_case(uint64_t idx, rng_t *r) {
         for (size_t i = 0; i < n; i++) in.a[i] = (1ULL << 63) | (rng_next(r) << 20) | i;
         in.model = AM_NMODELS;
     }
+    c03_check(c, in, g);
+}
+static void c03_check(const codec_t *c, input_t in, uint64_t g) {
+    char key[200];
     size_t n = in.n;
     g_codec_cases[c - CODECS]++;
     if (distinct_add(&g_distinct, arr_sig(c, in.a, n)) && nontrivial(in.a, n)) STAT_INC("distinct_nontrivial");
     g_ctx = c->boundname;
     size_t N = c->bound(in.a, n);
-    if (N == 0 || N > (1ull << 31)) {
+    if (N == 0 || N > (n > (1u << 22) ? (1ull << 36) : (1ull << 31))) {
         viol(KEY(key, c, "sizing-function-returned-nonsense"), "n=%zu N=%zu", n, N);
         free(in.base);
         return;
@@ -390,6 +476,7 @@ static void c13_case(uint64_t idx, rng_t *r) {
     }
     size_t n = in.n;
     g_codec_cases[c - CODECS]++;
+    if (n > 4096) STAT_INC("c13_long_arrays");
     uint8_t *dst = malloc(scratch_size(n));
     encinfo_t info;
     memset(&info, 0, sizeof info);
@@ -401,6 +488,30 @@ static void c13_case(uint64_t idx, rng_t *r) {
         return; /* C02's subject */
     }
     uint8_t *enc = place_encoded(dst, ret, 0x3C);
+    /* adaptive decoders take an optional *output* meta: what it holds beforehand (nothing, garbage, or the meta of an
+     * earlier, larger stream of the same encoding) must not matter */
+    varintAdaptiveMeta stale;
+    bool have_stale = false;
+    if (codec_is_adaptive(c)) {
+        size_t n2 = n * 2 + 300 + rng_below(r, 400);
+        uint64_t *b = malloc(n2 * 8);
+        gen_array_model(r, in.model, b, n2, 64);
+        n2 = shape_domain(c, r, b, n2, in.model);
+        uint8_t *d2 = malloc(scratch_size(n2));
+        memset(&stale, 0, sizeof stale);
+        g_ctx = c->encname;
+        size_t r2 = varintAdaptiveEncodeWith(d2, b, n2, (varintAdaptiveEncodingType)c->param, &stale);
+        if (r2 && rng_chance(r, 1, 2)) { /* or filled by a decode of that stream */
+            uint64_t *o2 = malloc(n2 * 8);
+            memset(&stale, 0, sizeof stale);
+            g_ctx = c->decname;
+            varintAdaptiveDecode(d2, o2, n2, &stale);
+            free(o2);
+        }
+        have_stale = r2 != 0 && n2 > n;
+        free(d2);
+        free(b);
+    }
     size_t caps[12];
     int nc = 0;
     caps[nc++] = 0;
@@ -424,7 +535,20 @@ static void c13_case(uint64_t idx, rng_t *r) {
         memset(gb.p, 0xCD, cap * esz);
         g_ctx = c->decname;
         snprintf(g_sub, sizeof g_sub, "codec=%s n=%zu capacity=%zu", c->name, n, cap);
-        size_t rr = c->decode_cap(enc, ret, &info, gb.p, cap, n);
+        size_t rr;
+        if (codec_is_adaptive(c) && (k % 3) != 0) {
+            varintAdaptiveMeta m;
+            if ((k % 3) == 1 && have_stale) {
+                m = stale;
+                STAT_INC("c13_decodes_with_stale_meta");
+            } else {
+                memset(&m, 0xEE, sizeof m);
+            }
+            snprintf(g_sub, sizeof g_sub, "codec=%s n=%zu capacity=%zu meta=%s", c->name, n, cap, (k % 3) == 1 && have_stale ? "from-an-earlier-larger-stream" : "garbage");
+            rr = varintAdaptiveDecode(enc, (uint64_t *)gb.p, cap, &m);
+        } else {
+            rr = c->decode_cap(enc, ret, &info, gb.p, cap, n);
+        }
         g_sub[0] = 0;
         long dmg = gbuf_check(&gb);
         if (dmg != -1) {
